@@ -130,6 +130,7 @@ pub fn sigma02() -> Vec<char> {
         0xB7, 0x375, 0x5F3, 0x30FB, 0x660, 0x6F0, // CONTEXTO families
         0x94D, 0x3B1, 0x5D0, 0x3042, 0x626, 0x629, 0xA872, 0x5BF, // enablers: virama, Greek, Hebrew, Hiragana, D, R, L, T
         0x10428, // 4-byte PVALID letter
+        0x644, 0x6CC, // letters sharing the UTF-8 lead byte of U+0660.. (D9) and of U+06F0.. (DB)
     ]
     .iter()
     .map(|c| char::from_u32(*c).unwrap())
@@ -245,7 +246,7 @@ pub fn run(env: &Env, run: &Run) -> (Stats, Coverage) {
     st.sample(json!({"class": "FreeformClass", "label": ["l", "U+00B7", "l", "U+0378"], "expected": "BadCodepoint{cp:0x378, position:3, Unassigned} - the satisfied middle dot does not stop the scan"}));
     st.sample(json!({"class": "user class {l:ContextO, U+00B7:PValid}", "label": ["l"], "expected": "an error naming 'l' at position 0 (no RFC 5892 rule exists for it)"}));
     let cov = Coverage {
-        rule: format!("standard classes: every label of length <= {} over a 25-symbol alphabet holding every derived-property value x every context-rule family x every enabling neighbour x UTF-8 lengths 1-4, plus pumped runs and ASCII block strings, every scalar value in 17 label templates and next to each of its 16 other-plane aliases (incl. every role a context rule inspects), both classes; user classes: all 7^{} assignments of derived-property values to {:?} x all {} labels of length <= {} (labels with two or more contextual code points also through a re-entrant class whose classifier itself calls allows); oracle = first-offender semantics with RFC 5892 rules (reference), classification taken from the class's own get_value_from_char; non-trivial = label holds a contextual code point or is rejected at index >= 1 behind a multi-byte character", n, k, syms.iter().map(|c| format!("U+{:04X}", c)).collect::<Vec<_>>(), labels.len(), ln),
+        rule: format!("standard classes: every label of length <= {} over a 27-symbol alphabet holding every derived-property value x every context-rule family x every enabling neighbour x UTF-8 lengths 1-4, plus pumped runs and ASCII block strings, every scalar value in 17 label templates and next to each of its 16 other-plane aliases (incl. every role a context rule inspects), both classes; user classes: all 7^{} assignments of derived-property values to {:?} x all {} labels of length <= {} (labels with two or more contextual code points also through a re-entrant class whose classifier itself calls allows); oracle = first-offender semantics with RFC 5892 rules (reference), classification taken from the class's own get_value_from_char; non-trivial = label holds a contextual code point or is rejected at index >= 1 behind a multi-byte character", n, k, syms.iter().map(|c| format!("U+{:04X}", c)).collect::<Vec<_>>(), labels.len(), ln),
         alphabet: json!(sigma.iter().map(|c| format!("U+{:04X}", *c as u32)).collect::<Vec<_>>()),
         bound_completed: format!("tree length <= {} ({} labels x 2 classes); sweep 1,112,064 x 15 templates x 2 classes; user classes {} assignments x {} labels", n, tree_size(sigma.len(), n), nassign, labels.len()),
         exhaustive: false,
